@@ -2,6 +2,7 @@ package checks
 
 import (
 	"fmt"
+	"os"
 
 	"verifharness/machine"
 	"verifharness/refcpu"
@@ -46,6 +47,8 @@ type lsStats struct {
 	End                                                                     string
 	Ops                                                                     map[string]bool
 }
+
+var lsTrace = os.Getenv("LS_TRACE") != ""
 
 const lsHandlerBase = 0xd000 // handler i lives at lsHandlerBase + 0x40*i (vectors JP there)
 
@@ -105,6 +108,13 @@ func lsLowest(v uint8) int {
 func (rg *cpuRig) lockstep(cas *lsCase, pol lsPolicy) (st lsStats, sig string, err error) {
 	m := rg.m
 	st.Ops = map[string]bool{}
+	// every case starts from zeroed work and high RAM, so that a saved case reproduces on its own
+	for a := 0xc000; a < 0xe000; a++ {
+		m.Mp.Write(uint16(a), 0)
+	}
+	for a := 0xff80; a < 0xfff8; a++ {
+		m.Mp.Write(uint16(a), 0)
+	}
 	// load
 	for _, p := range cas.Pokes {
 		m.Mp.Write(p.A, p.V)
@@ -158,6 +168,9 @@ func (rg *cpuRig) lockstep(cas *lsCase, pol lsPolicy) (st lsStats, sig string, e
 		ier := m.Mp.Read(0xffff)
 		pending := ifr & ier & 0x1f
 		pre := r
+		if lsTrace {
+			fmt.Printf("cyc=%d pc=%04x op=%02x ime=%v eiDelay=%d halted=%v haltbug=%v IE=%02x IF=%02x sp=%04x hl=%04x a=%02x\n", cyc, r.PC, m.Mp.Read(r.PC), ime, eiDelay, halted, haltbug, ier, ifr, r.SP, r.HL(), r.A)
+		}
 		switch {
 		case ime && pending != 0:
 			// ---- dispatch ----
@@ -357,9 +370,18 @@ func (rg *cpuRig) lockstep(cas *lsCase, pol lsPolicy) (st lsStats, sig string, e
 		}
 		expIF := ifr
 		n := 0
+		var evDuring uint8
+		readsIF := false
+		for _, a := range exp.Acc {
+			if !a.Write && a.Addr == 0xff0f {
+				readsIF = true
+			}
+		}
 		for {
 			if n > 0 {
-				expIF |= applyEvents()
+				e := applyEvents()
+				evDuring |= e
+				expIF |= e
 			}
 			for _, a := range exp.Acc {
 				if a.Write && a.Addr == 0xff0f && a.Cycle == n+1 {
@@ -384,16 +406,24 @@ func (rg *cpuRig) lockstep(cas *lsCase, pol lsPolicy) (st lsStats, sig string, e
 				st.CondNotTaken++
 			}
 		}
+		if readsIF && evDuring != 0 {
+			// the value this instruction read from IF depends on the cycle the request arrived in: not modelled
+			st.End = "if-read-raced-with-request"
+			return st, "", nil
+		}
 		if special && (haltbug || got != exp.R) {
 			// Control experiment: under the halt bug the byte after HALT is fetched twice, which is
 			// exactly what a normal fetch from PC-1 sees when that byte is duplicated there; after a
 			// plain wake-up the instruction must behave as it does from the same state without HALT.
 			// Comparing the implementation with itself keeps instruction semantics (C01) out of the verdict.
 			var post []uint8
-			for i, a := range exp.Acc {
+			for _, a := range exp.Acc {
 				post = append(post, m.Mp.Read(a.Addr))
+			}
+			for i, a := range exp.Acc {
 				m.Mp.Write(a.Addr, snap[i])
 			}
+			ifNow, ieNow := m.Mp.Read(0xff0f), m.Mp.Read(0xffff)
 			ctl := pre
 			var saved uint8
 			if haltbug {
@@ -404,6 +434,9 @@ func (rg *cpuRig) lockstep(cas *lsCase, pol lsPolicy) (st lsStats, sig string, e
 			if e := rg.prep(ctl, false); e != nil {
 				return st, "rig-boundary", e
 			}
+			m.Mp.Write(0xffff, ieNow)
+			m.Mp.Write(0xff0f, ifr) // the value the instruction saw when it started
+			_ = ifNow
 			obs2 := rg.exec(10, nil, nil)
 			same := obs2.R == got
 			for i, a := range exp.Acc {
@@ -452,7 +485,7 @@ func (rg *cpuRig) lockstep(cas *lsCase, pol lsPolicy) (st lsStats, sig string, e
 		}
 		if pol.checkIRQ {
 			if gi := m.Mp.Read(0xff0f) & 0x1f; gi != expIF {
-				return st, "if-changed-without-dispatch", fmt.Errorf("cycle %d: IF=%02x after instruction %s, want %02x (no dispatch happened)", cyc-n, gi, name, expIF)
+				return st, "if-changed-without-dispatch", fmt.Errorf("cycle %d: IF=%02x after instruction %s, want %02x (no dispatch happened; IF was %02x before, accesses %+v)", cyc-n, gi, name, expIF, ifr, exp.Acc)
 			}
 		}
 		r = got
